@@ -187,8 +187,11 @@ def rule_r3(rep, repo):
         # transform_1d_grid & co. run on every transform instance)
         from gridlint import e3 as _e3
         for mname, f in sorted(_e3.reachable_methods(repo, k).items()):
-            if mname == "__init__" or (f.qual, "seen") in seen_writers:
+            if mname == "__init__":
                 continue
+            # an inherited method is judged (and reported) once, but its set-once field counts for
+            # every class that inherits it
+            already = (f.qual, "seen") in seen_writers
             if f.cls != k:
                 seen_writers.add((f.qual, "seen"))
             for guards, stmt in _walk_with_guards(strip_docstring(f.node.body)):
@@ -204,10 +207,14 @@ def rule_r3(rep, repo):
                             none_guard = any(pos and _is_none_test(tt, fld.lstrip("_")) or
                                              pos and _is_none_test(tt, fld) for tt, pos in guards)
                             if isinstance(stmt, ast.Assign) and none_guard:
-                                rep.ok("R3.set-once-write", f"{k}.{mname}:{fld}", repo.rel(f.module, stmt),
-                                       "write dominated by `is None` test of the same field")
                                 if (k, fld) not in scaled:
                                     scaled.append((k, fld))
+                                if already:
+                                    continue
+                                rep.ok("R3.set-once-write", f"{f.cls}.{mname}:{fld}", repo.rel(f.module, stmt),
+                                       "write dominated by `is None` test of the same field")
+                            elif already:
+                                continue
                             else:
                                 rep.violation(
                                     "R3.transform-stateless", f.qual, fld,
@@ -219,7 +226,7 @@ def rule_r3(rep, repo):
     for k, fld in scaled:
         ci = repo.classes[k]
         prop = fld.lstrip("_")
-        setter_methods = [m for m, f in ci.methods.items()
+        setter_methods = [m for m, f in _e3.reachable_methods(repo, k).items()
                           if any(isinstance(s, ast.Assign) and any(
                               isinstance(t, ast.Attribute) and t.attr == fld for t in s.targets)
                                  for s in ast.walk(f.node)) and m != "__init__"]
@@ -257,77 +264,111 @@ def rule_r3(rep, repo):
 
 
 def rule_r5(rep, repo):
-    """Cache transparency: what is stored on a miss is exactly what flows on, and a hit binds the
-    same names to exactly the stored entry -- so the value handed to the grid is the same function
-    of the shipped data whether the entry was just loaded, loaded earlier, or caching is off."""
+    """Cache transparency: what is stored on a miss is exactly what flows on, and a hit hands on
+    exactly the stored entry -- so the value given to the grid is the same function of the shipped
+    data whether the entry was just loaded, loaded earlier, or caching is off.
+
+    Recognised look-up idioms (C = the cache selected by the dispatch, k = the key):
+      A   if k not in C: <load>; [if cache:] C[k] = S   else: names = C[k]
+      B   e = C.get(k);  if e is None: e = <load>; [if cache:] C[k] = S
+    Both are evaluated as value graphs: miss environment vs hit environment of the one top-level
+    `if` that contains the store."""
     from gridlint import e5
+    from gridlint.props.c02 import AngularModel
+    cvar = AngularModel(repo).var["__init__"]["cache"]
     f = repo.method("AngularGrid", "__init__")
     body = strip_docstring(f.node.body)
-    br = None
-    for s in body:
-        if isinstance(s, ast.If) and isinstance(s.test, ast.Compare) and len(s.test.ops) == 1 and \
-                isinstance(s.test.ops[0], (ast.NotIn, ast.In)) and norm(s.test.comparators[0]) == "cache_dict":
-            br = s
-    if br is None:
-        raise AnalysisError("unrecognised idiom: AngularGrid.__init__ has no `key (not) in cache_dict` branch")
-    key = norm(br.test.left)
-    miss, hit = (br.body, br.orelse) if isinstance(br.test.ops[0], ast.NotIn) else (br.orelse, br.body)
     cons = "angular.AngularGrid.__init__"
-    # miss branch
+
+    def stores_in(stmts):
+        return [x for st in stmts for x in ast.walk(st)
+                if isinstance(x, ast.Assign) and isinstance(x.targets[0], ast.Subscript) and norm(x.targets[0].value) == cvar]
+    br = next((s_ for s_ in body if isinstance(s_, ast.If) and stores_in([s_])), None)
+    if br is None:
+        if stores_in(body):
+            raise AnalysisError(f"unrecognised idiom: the store into {cvar} is not under a cache-miss test")
+        raise AnalysisError(f"unrecognised idiom: AngularGrid.__init__ never stores into {cvar}")
+    pre = e5.VG(repo, "AngularGrid", f.node)
+    for s_ in body[:body.index(br)]:
+        pre.stmt(s_)
+    C = ("glob", cvar) if cvar not in pre.env else pre.env[cvar]
+    t = br.test
+    tg = pre.ev(t)
+    key = None
+    miss_is_body = None
+    if isinstance(t, ast.Compare) and len(t.ops) == 1 and isinstance(t.ops[0], (ast.NotIn, ast.In)) and \
+            norm(t.comparators[0]) == cvar:
+        key = pre.ev(t.left)
+        miss_is_body = isinstance(t.ops[0], ast.NotIn)
+    elif isinstance(t, ast.Compare) and len(t.ops) == 1 and isinstance(t.ops[0], (ast.Is, ast.IsNot)) and \
+            isinstance(t.comparators[0], ast.Constant) and t.comparators[0].value is None:
+        v = pre.ev(t.left)
+        if v[0] == "call" and v[1] == ("attr", C, "get") and len(v[2]) in (1, 2) and \
+                (len(v[2]) == 1 or v[2][1] == ("const", "None")):
+            key = v[2][0]
+            miss_is_body = isinstance(t.ops[0], ast.Is)
+    if key is None:
+        raise AnalysisError(f"unrecognised idiom: cache-miss test `{norm(t)[:60]}` (known: `k not in {cvar}`, "
+                            f"`{cvar}.get(k) is None`)")
+    miss, hit = (br.body, br.orelse) if miss_is_body else (br.orelse, br.body)
+    entries = (("sub", C, key), ("call", ("attr", C, "get"), (key,), ()),
+               ("call", ("attr", C, "get"), (key, ("const", "None")), ()))
+    if stores_in(hit):
+        rep.violation("R5.cache-transparent", cons, "store-on-hit", "the cache is written on the hit path", repo.rel("angular", br))
+    # miss environment; the store may sit under `if cache:` -- the flowing values must not depend on it
     vg = e5.VG(repo, "AngularGrid", f.node)
-    stored = None
-    store_stmt = None
+    vg.env = dict(pre.env)
+    stored = []
 
     def walk(stmts):
-        nonlocal stored, store_stmt
         for st in stmts:
             if isinstance(st, ast.If):
-                walk(st.body)   # `if cache:` -- the store is optional, the values must not depend on it
-                continue
-            if isinstance(st, ast.Assign) and isinstance(st.targets[0], ast.Subscript) and \
-                    norm(st.targets[0].value) == "cache_dict":
-                if norm(st.targets[0].slice) != key:
+                if stores_in([st]):
+                    walk(st.body)
+                    walk(st.orelse)
+                    continue
+            if isinstance(st, ast.Assign) and isinstance(st.targets[0], ast.Subscript) and norm(st.targets[0].value) == cvar:
+                if vg.ev(st.targets[0].slice) != key:
                     rep.violation("R5.cache-transparent", cons, "store-key",
-                                  f"the entry is stored under `{norm(st.targets[0].slice)}` but looked up under `{key}`",
-                                  repo.rel("angular", st))
-                stored = vg.ev(st.value)
-                store_stmt = st
+                                  f"the entry is stored under `{norm(st.targets[0].slice)}` but looked up under "
+                                  f"`{e5.show(key, 40)}`", repo.rel("angular", st))
+                stored.append((vg.ev(st.value), st))
                 continue
             vg.stmt(st)
     walk(miss)
-    if stored is None:
-        raise AnalysisError("unrecognised idiom: the miss branch does not store into cache_dict")
-    # hit branch: names bound from cache_dict[key]
+    if not stored:
+        raise AnalysisError(f"unrecognised idiom: the miss branch does not store into {cvar}")
+    S, store_stmt = stored[-1]
     hv = e5.VG(repo, "AngularGrid", f.node)
+    hv.env = dict(pre.env)
     for st in hit:
         hv.stmt(st)
-    entry = ("sub", ("glob", "cache_dict"), hv.ev(br.test.left))
-    names = [n for n in hv.env if hv.env[n] != vg.env.get(n) or n in vg.env]
-    flow = sorted(n for n in set(vg.env) & set(hv.env)
-                  if n not in f.allparams and (hv.env[n] != ("sym", n)) and
-                  (e5.show(hv.env[n]).startswith("cache_dict[") or n in [x.id for x in ast.walk(store_stmt.value)
-                                                                         if isinstance(x, ast.Name)]))
+    # names whose value after the branch differs between miss and hit, or was (re)bound in it
+    flow = sorted(n for n in set(vg.env) | set(hv.env)
+                  if not n.startswith("self.") and (vg.env.get(n) != pre.env.get(n) or hv.env.get(n) != pre.env.get(n)))
+    used_after = {x.id for st in body[body.index(br) + 1:] for x in ast.walk(st) if isinstance(x, ast.Name)}
+    flow = [n for n in flow if n in used_after]
     if not flow:
-        raise AnalysisError("unrecognised idiom: no names flow out of both cache branches")
-    ok = True
-    if stored[0] != "tuple":
-        stored_items = {flow[0]: stored} if len(flow) == 1 else {}
-    else:
-        stored_items = {}
+        raise AnalysisError("unrecognised idiom: no names flow out of the cache branches")
+
     def norm_hit(h):
-        # `a, b = (x.copy() for x in cache_dict[key])` -- element-wise identity over the entry
+        # `a, b = (x.copy() for x in C[k])` -- element-wise identity over the entry
         if h[0] == "sub" and isinstance(h[1], tuple) and h[1] and h[1][0] == "comp" and h[1][2] == ("bound", 0, 0) \
-                and len(h[1][3]) == 1 and h[1][3][0] == (entry, ()):
-            return ("sub", entry, h[2])
-        return h
+                and len(h[1][3]) == 1 and h[1][3][0][0] in entries and not h[1][3][0][1]:
+            return ("sub", entries[0], h[2])
+        if h[0] == "sub" and h[1] in entries:
+            return ("sub", entries[0], h[2])
+        return entries[0] if h in entries else h
+    ok = True
     for n in flow:
+        if n not in hv.env or n not in vg.env:
+            raise AnalysisError(f"unrecognised idiom: `{n}` is bound on one cache path only")
         h = norm_hit(hv.env[n])
-        # position of the name in the stored entry
-        if h[0] == "sub" and h[1] == entry and h[2][0] == "const":
+        if h[0] == "sub" and h[1] == entries[0] and h[2][0] == "const" and h[2][1].isdigit():
             i = int(h[2][1])
-            sv = stored[1][i] if stored[0] == "tuple" and i < len(stored[1]) else None
-        elif h == entry:
-            sv = stored
+            sv = S[1][i] if S[0] == "tuple" and i < len(S[1]) else ("sub", S, h[2])
+        elif h == entries[0]:
+            sv = S
         else:
             ok = False
             rep.violation("R5.cache-transparent", cons, f"hit:{n}",
@@ -335,18 +376,15 @@ def rule_r5(rep, repo):
                           f"the cache differs from a freshly loaded one", repo.rel("angular", br))
             continue
         mv = vg.env.get(n)
-        if sv is not None and sv == mv:
+        if sv == mv or (S[0] != "tuple" and mv[0] == "sub" and sv == mv):
             rep.ok("R5.cache-transparent", f"AngularGrid.__init__:{n}", repo.rel("angular", store_stmt),
                    f"stored {e5.show(sv, 60)} == value flowing on after a miss")
         else:
             ok = False
             rep.violation("R5.cache-transparent", cons, f"miss:{n}",
                           f"after a cache miss `{n}` is {e5.show(mv, 80)} but the cache keeps "
-                          f"{e5.show(sv, 80) if sv is not None else 'nothing for it'}: the first grid of a degree and "
-                          f"the later ones served from the cache are built from different values",
-                          repo.rel("angular", store_stmt))
-    # nothing after the branch may write the flowing names in place (that would alter the entry or
-    # make the miss path differ) -- covered by R1 sinks; here: no re-binding that depends on `cache`
+                          f"{e5.show(sv, 80)}: the first grid of a degree and the later ones served from the cache "
+                          f"are built from different values", repo.rel("angular", store_stmt))
     return ok
 
 
